@@ -462,7 +462,7 @@ func runC08(c *Ctx) {
 			}
 		}
 	}
-	c.Floor("R1.gate", nEffects, 20, "effect sites in gated methods")
+	c.Floor("R1.gate", nEffects, 10, "effect sites in gated methods")
 
 	// R2: flag flips
 	for _, spec := range []struct {
@@ -592,4 +592,80 @@ func isEmptySlice(v ssa.Value) bool {
 		}
 	}
 	return false
+}
+
+// Body: the function holding the work of server method `name`. It is the method itself, unless the method - after
+// taking the mutex and refusing under the lock flag - only delegates: every return that is not under the flag's
+// refusing value hands back, unchanged, the results of one call of an unexported method of the same receiver that
+// gets the method's own parameters in order and has no other call site. Then it is that method (the rules about
+// what the operation does reason in its frame; the rules about locking and refusal stay on the exported method).
+func (m *shimModel) Body(name string) *ssa.Function {
+	fn := m.Methods[name]
+	if fn == nil {
+		return nil
+	}
+	w := m.w
+	for hop := 0; hop < 2; hop++ {
+		var target *ssa.Call
+		ok := true
+		for _, r := range liveReturns(fn) {
+			if v, known := m.lockedKnown(fn, r.Block()); known && v {
+				continue // the refusal under the lock flag
+			}
+			// the results are those of one call, in order
+			var call *ssa.Call
+			for i, res := range r.Results {
+				var cv *ssa.Call
+				// results of a function with defers are spilled to cells: the value stored on this path
+				if lv := w.leaves(res, r, false); len(lv) == 1 {
+					res = lv[0].Val
+				}
+				switch x := res.(type) {
+				case *ssa.Call:
+					if len(r.Results) == 1 {
+						cv = x
+					}
+				case *ssa.Extract:
+					if c2, isC := x.Tuple.(*ssa.Call); isC && x.Index == i {
+						cv = c2
+					}
+				}
+				if cv == nil || (call != nil && cv != call) {
+					dbgf("Body(%s): result %d of %v is %T %v", name, i, r, res, res)
+					ok = false
+					break
+				}
+				call = cv
+			}
+			if !ok || call == nil || (target != nil && call != target) {
+				ok = false
+				break
+			}
+			target = call
+		}
+		if !ok || target == nil {
+			dbgf("Body(%s): no delegation in %s (ok=%v)", name, fn.Name(), ok)
+			return fn
+		}
+		h := w.helperOf(target)
+		if h == nil || !w.transparent(h) || w.dynCallable(h) || recvNamed(h) != m.Server || len(w.callSites(h)) != 1 || len(target.Call.Args) != len(fn.Params) {
+			return fn
+		}
+		for i, a := range target.Call.Args {
+			if a != ssa.Value(fn.Params[i]) {
+				return fn
+			}
+		}
+		// nothing but the mutex and the flag test happens before the delegation
+		for _, call := range callsIn(fn) {
+			if call == ssa.CallInstruction(target) {
+				continue
+			}
+			if n := calleeName(call); !strings.HasPrefix(n, "(*sync.") && n != "errors.New" && n != "fmt.Errorf" {
+				return fn
+			}
+		}
+		fn = h
+	}
+	return fn
 }
